@@ -70,6 +70,13 @@ def one(data):
 
 runner._quiet()
 os.makedirs(corpus, exist_ok=True)
+if not os.listdir(corpus):
+    # starting corpus: seeded random buffers long enough for Hypothesis to build multi-atom / multi-term cases
+    import random
+    rng = random.Random(seed)
+    for k, n in enumerate([64, 128, 256, 256, 512, 512, 1024, 1024, 2048, 2048, 4096, 4096]):
+        with open(os.path.join(corpus, "seed%02d" % k), "wb") as f:
+            f.write(rng.randbytes(n))
 atheris.Setup([sys.argv[0], "-runs=%d" % runs, "-seed=%d" % (seed or 1), "-max_len=4096", "-verbosity=0", "-print_final_stats=0", corpus], one)
 dump()
 atheris.Fuzz()
